@@ -39,6 +39,10 @@ func c09World(t *testing.T, p c09Params) rt.Result {
 		ps := hz.StdPeer("10.0.1.1")
 		ps.Cfg.ProbeWriteInClose = true
 		v := pickVariety(r, p.Dir)
+		if r.IntN(3) == 0 && p.Stim != "FIN" && p.Stim != "RST" { // (those cells count corebgp's write attempts)
+			v = v.withStorm(1 + r.IntN(3))
+		}
+		defer v.Kick()
 		v.apply(&ps, p.Seed)
 		if p.Dir == "in" && !p.Active {
 			ps.Passive = true
@@ -103,6 +107,7 @@ func c09World(t *testing.T, p c09Params) rt.Result {
 				stim = append(stim, wire.Msg(wire.TypeNotification, []byte{6})...)
 			}
 		}
+		v.Kick()
 		writesBefore := rc.Pair.Writes(0)
 		switch p.Stim {
 		case "FIN":
@@ -125,7 +130,7 @@ func c09World(t *testing.T, p c09Params) rt.Result {
 			w.Settle() // slow callbacks
 		}
 
-		got := rc.Msgs()[before:]
+		got := sansEcho(rc.Msgs()[before:])
 		eof, _ := rc.EOF()
 		if pipe {
 			eof = rc.Pair.Closed(0) > 0
